@@ -401,9 +401,10 @@ func (h *bdHarness) checkCandidates(ctx context.Context, b *beaconsql.Backend, m
 	ks := []int{1, 2, 3}
 	usages := []beacon.Usage{beacon.UsageUpReg, beacon.UsageDownReg, beacon.UsageProp, beacon.UsageUpReg | beacon.UsageProp,
 		beacon.UsageUpReg | beacon.UsageDownReg}
-	srcs := []addr.IA{0, iaX, iaY}
+	// sources: any, X, M (same ISD as X, another AS, no beacon starts there), Y (same AS number as X, another ISD)
+	srcs := []addr.IA{0, iaX, iaM, iaY}
 	if !all {
-		ks, usages, srcs = []int{2}, usages[:4], srcs[:2]
+		ks, usages, srcs = []int{2}, usages[:4], srcs[:3]
 	}
 	for _, k := range ks {
 		for _, u := range usages {
@@ -591,8 +592,8 @@ func c27BeaconDB(t *testing.T, r *mc.Run, phases *[]map[string]any) bool {
 		}
 		return
 	}()
-	r.Extra["beacondb_queries_per_replay"] = len(big.fixed) + 8
-	r.Extra["beacondb_queries_per_new_state"] = len(big.fixed) + len(big.cross) + 45
+	r.Extra["beacondb_queries_per_replay"] = len(big.fixed) + 12
+	r.Extra["beacondb_queries_per_new_state"] = len(big.fixed) + len(big.cross) + 60
 	ok := runStorePhase(r, storePhase[bdEv]{"beacondb-merge-checked", small.cfg.menu(), mc.Pick(3, 4), true,
 		func(hist []bdEv) storeResult { return small.replay(t, hist) }}, phases)
 	if ok {
